@@ -133,15 +133,15 @@ def check(prog, run):
         relts = rets[-1].value.elts
         # A and C are the last two list-valued returns (SSI: (A, C); SSI_fast: (Obs, A, C, ...); multi: (Obs_all, A, C))
         names = [e.id if isinstance(e, ast.Name) else None for e in relts]
-        apps = appended_values(fi)
-        lists = [n for n in names if n in apps]
+        apps = {n: astq.list_elements(fi, n) for n in names if n}
+        lists = [n for n in names if apps.get(n)]
         if len(lists) < 2:
             ob("R-shift", "A / C lists", None, f"returned lists built by append not found ({names})")
             continue
         An, Cn = lists[0], lists[1]
         se = symidx.SymEval(prog, fi)
         try:
-            acall, aarg = apps[An][0]
+            acall, aarg = apps[An][0].at, apps[An][0].elt
             ax = astq.expr_at(fi, acall, aarg)
             rec = recognise_A(prog, fi, se, ax)
             up = row_slice(se, rec["up"])
@@ -167,6 +167,8 @@ def check(prog, run):
                         d = cand - up[2]
                         w_up = d if w_up is None or len(repr(d)) < len(repr(w_up)) else w_up
                 same_w = w_up is not None and w_up == w_down
+                if not same_w and (w_up is None or ".shape[0]" in repr(w_up - w_down)):
+                    same_w = None      # the extent of the matrix could not be resolved: the difference still contains it
                 ob("R-shift", "one shift: rows(up) = rows - w and down starts at w", same_w, f"up drops {w_up!r} rows, down starts at row {w_down!r}", f"{w_up!r} vs {w_down!r}", acall)
             # w == channel count
             if kind == "single":
@@ -181,7 +183,7 @@ def check(prog, run):
                 okw = okw and "shape[0]" in s
                 ob("R-shift", "shift = total channel count n_ref + sum(n_mov)", okw, f"w = {w_down!r}", repr(w_down), acall)
             # C
-            ccall, carg = apps[Cn][0]
+            ccall, carg = apps[Cn][0].at, apps[Cn][0].elt
             cx = astq.expr_at(fi, ccall, carg)
             cs = row_slice(se, cx)
             okc = cs is not None and astq.dump(cs[0]) == astq.dump(up[0]) and cs[1] == P.c(0) and cs[2] is not None and cs[2] == w_down
@@ -203,12 +205,16 @@ def check(prog, run):
             if tr:
                 ob("R-order-slot", "one truncation index throughout the order's computation", len(set(tr)) == 1, f"{len(tr)} truncations, {len(set(tr))} distinct index expression(s)", str(len(set(tr))), acall)
             # loop over orders: the truncation index is the loop variable of a range(0, ordmax+1, step)
-            pm = astq.parent_map(fi.node)
-            loop = astq.enclosing(pm, acall, (ast.For,))
-            if loop is not None and symidx.is_range(prog, fi, loop.iter) is not None:
-                ra = symidx.range_args(se, symidx.is_range(prog, fi, loop.iter))
-                okr = ra is not None and ra[0] == P.c(0) and ra[1] == P.s("ordmax") + 1
-                ob("R-order-slot", "orders 0..ordmax are realised (list index = order)", okr, f"range({', '.join(map(repr, ra)) if ra else '?'})", repr(ra), loop)
+            for nm_ in (An, Cn):
+                it_ = apps[nm_][0].iter
+                if it_ is not None and symidx.is_range(prog, fi, it_) is not None:
+                    ra = symidx.range_args(se, symidx.is_range(prog, fi, it_))
+                    okr = ra is not None and ra[0] == P.c(0) and ra[1] == P.s("ordmax") + 1
+                    ob("R-order-slot", f"orders 0..ordmax are realised (index in list {'A' if nm_ == An else 'C'} = order)", okr, f"range({', '.join(map(repr, ra)) if ra else '?'})", repr(ra), it_)
+                elif it_ is not None:
+                    ob("R-order-slot", f"orders 0..ordmax are realised (index in list {'A' if nm_ == An else 'C'} = order)", None, f"loop over `{astq.src(it_, 50)}` is not a range", node=it_)
+                if nm_ == Cn and astq.dump(apps[An][0].iter) == astq.dump(apps[Cn][0].iter) if apps[An][0].iter is not None and apps[Cn][0].iter is not None else False:
+                    break
         except Und as e:
             ob("R-shift", "structure", None, str(e))
     poles_slot(prog, run)
